@@ -104,6 +104,26 @@ def random_det_model(rng, closed=False, ns=None, nparams=None, positive=False):
     return gen.Defn(sy, [], procs), theta, x0, tend
 
 
+def extra_process(rng, defn):
+    """a bounded (at most linear) event process over the symbols of an existing definition, to be ADDED to a model that has
+    already been solved"""
+    sy = defn.sy
+    n, ns = sy.n, sy.ns
+    np_ = sy.np - 1                      # the last parameter is the scale N
+    st = lambda i: psym(sy.idx_state(i), n)
+    th = psym(sy.idx_param(rng.randrange(np_)), n)
+    ty = rng.choice(["T", "T", "D", "B"]) if ns >= 2 else rng.choice(["D", "B"])
+    mag = pconst(rng.choice([1, 1, 2]), n)
+    if ty == "T":
+        o, d = rng.sample(range(1, ns + 1), 2)
+    elif ty == "D":
+        o, d = rng.randint(1, ns), 0
+    else:
+        o, d = 0, rng.randint(1, ns)
+    rate = pmul(th, st(o - 1)) if o else (th if rng.random() < 0.5 else pmul(th, st(rng.randrange(ns))))
+    return {"kind": "event", "rate": rate, "trs": [{"ty": ty, "o": o, "d": d, "mag": mag}], "route": "E"}
+
+
 def time_grid(rng, tend, uniform=None, special=None):
     """grid[0] is the initial time, grid[1:] the requested times.  special: 'origin' -- the first requested time IS the
     initial time (the whole linspace(t0, T, n) handed over, as the package's own examples do); 'repeat' -- one requested
